@@ -6,6 +6,7 @@
    nz_SA n g     : forall disjoint A B of the n players, g A + g B <= g (A u B). *)
 From ICG Require Import Prelude Bits Table Bounds GameOps Normalize NormalizeProofs.
 From ICG Require Import FoldLemmas SASound Checks Env ShiftProofs.
+From ICG Require Import ScaleProofs NormalInvProofs.
 
 (* norm_formula: for every n and every full table (superadditive or not) the player loop succeeds and, just
    before the division, coalition c holds g c - sum of the ORIGINAL singleton values of its players. *)
@@ -299,4 +300,63 @@ Proof.
   split; [apply agrees_check_sound; vm_compute; reflexivity|].
   split; [apply agrees_check_sound; vm_compute; reflexivity|].
   split; [vm_compute; reflexivity|]. split; [vm_compute; reflexivity|]. split; vm_compute; reflexivity.
+Qed.
+
+(* ---------- Affine invariance of the normalised game (theories/NormalInvProofs.v) ----------
+   ni_affine n c a g g'  : forall T, bounded n T -> g' T == c * (g T + tr_add a n T)   (tr_add: the additive game of a)
+   ni_regular n g        : ~ nz_surplus n g == 0 \/ (nz_SA n g /\ g 0 == 0)            (the proviso of denorm_norm above) *)
+
+(* the game that normalize_game leaves behind (normalize_spec: nz_normal) does not depend on the scale (c > 0) or on
+   additive shifts of the game: positive affine images have the same normalised values on every coalition *)
+Theorem C15_normalisation_affine_invariant :
+  forall n c a g g', 0 < c -> ni_regular n g -> ni_affine n c a g g' ->
+    forall X, bounded n X -> nz_normal n g' X == nz_normal n g X.
+Proof. exact ni_normal_affine. Qed.
+Print Assumptions C15_normalisation_affine_invariant.
+
+Theorem C15_normalisation_scale_invariant :
+  forall n c g, 0 < c -> ni_regular n g ->
+    forall X, bounded n X -> nz_normal n (fun T => c * g T) X == nz_normal n g X.
+Proof. exact ni_normal_scale. Qed.
+Print Assumptions C15_normalisation_scale_invariant.
+
+(* shifts: every game, no proviso; the surplus does not move, and scales with the game *)
+Theorem C15_normalisation_shift_invariant :
+  forall n a g X, bounded n X -> nz_normal n (fun T => g T + tr_add a n T) X == nz_normal n g X.
+Proof. exact ni_normal_shift. Qed.
+Print Assumptions C15_normalisation_shift_invariant.
+
+Theorem C15_surplus_affine :
+  (forall n c g, nz_surplus n (fun T => c * g T) == c * nz_surplus n g)
+  /\ (forall n a g, nz_surplus n (fun T => g T + tr_add a n T) == nz_surplus n g)
+  /\ (forall n c a g g', ni_affine n c a g g' -> nz_surplus n g' == c * nz_surplus n g).
+Proof. exact (conj ni_surplus_scale (conj ni_surplus_shift ni_surplus_affine)). Qed.
+Print Assumptions C15_surplus_affine.
+
+(* the full statement "for EVERY game g and c > 0: nz_normal n (c * g) == nz_normal n g" is false in the faithful model:
+   when the surplus is 0 _normalize_icg returns before the division and leaves the excesses, which a game that is not
+   superadditive can have non-zero; they are multiplied by c.  Witness: 3 players, v{0,1} = 1, everything else 0, c = 2. *)
+Theorem C15_normalisation_scale_invariant_without_proviso_refuted :
+  exists (n : nat) (c : Q) (g : N -> Q) (X : N),
+    0 < c /\ bounded n X /\ ~ nz_normal n (fun T => c * g T) X == nz_normal n g X.
+Proof. exact ni_normal_scale_refuted. Qed.
+Print Assumptions C15_normalisation_scale_invariant_without_proviso_refuted.
+
+(* Example: 3 players, v = (0; 1; 1; 3; 1; 2; 4; 9) in id order (surplus 6), its image under c = 1/1024 and the weights
+   a = (2; -1; 1/2) (surplus 6/1024): the same normalised game (0; 0; 0; 1/6; 0; 0; 1/3; 1) *)
+Definition ex_ni_v : list Q := [0; 1; 1; 3; 1; 2; 4; 9].
+Definition ex_ni_a : nat -> Q := tr_vec [2; -(1); 1#2].
+Definition ex_ni_v' : list Q := ni_image_list 3 (1#1024) ex_ni_a ex_ni_v.
+
+Example ex_normalisation_affine_invariant :
+  0 < 1#1024 /\ ni_regular 3 (ev_val ex_ni_v) /\ ni_affine 3 (1#1024) ex_ni_a (ev_val ex_ni_v) (ev_val ex_ni_v')
+  /\ ex_ni_v' = [0; 3#1024; 0; 1#256; 3#2048; 9#2048; 7#2048; 21#2048]
+  /\ Qred (nz_surplus 3 (ev_val ex_ni_v)) = 6 /\ Qred (nz_surplus 3 (ev_val ex_ni_v')) = 3#512
+  /\ ni_normal_list 3 ex_ni_v = [0; 0; 0; 1#6; 0; 0; 1#3; 1]
+  /\ ni_normal_list 3 ex_ni_v' = ni_normal_list 3 ex_ni_v.
+Proof.
+  split; [reflexivity|]. split; [left; vm_compute; intro H; discriminate H|].
+  split; [apply ni_affine_vals_check_sound; vm_compute; reflexivity|].
+  split; [vm_compute; reflexivity|]. split; [vm_compute; reflexivity|]. split; [vm_compute; reflexivity|].
+  split; vm_compute; reflexivity.
 Qed.
